@@ -170,12 +170,13 @@ def generate(scratch, module, cfg, timeout=1800, workers=16):
     return out, r
 
 
-def apalache(scratch, module, inv, timeout=600):
-    """Symbolic check of a state invariant at length 0 (all initial states) with Apalache."""
-    d = spec_dir(scratch, "apalache-%s-%s" % (module, inv))
+def apalache(scratch, module, inv, timeout=600, init="Init", length=0, cinit=None):
+    """Symbolic check of a state invariant with Apalache (length 0: all initial states; init=IndInit, length=1: inductive step)."""
+    d = spec_dir(scratch, "apalache-%s-%s-%s" % (module, inv, init))
     t0 = time.time()
     try:
-        p = subprocess.run(["apalache-mc", "check", "--init=Init", "--next=Next", "--inv=" + inv, "--length=0", "--out-dir=" + os.path.join(d, "out"), module + ".tla"],
+        p = subprocess.run(["apalache-mc", "check", "--init=" + init, "--next=Next", "--inv=" + inv, "--length=%d" % length, "--out-dir=" + os.path.join(d, "out")]
+                           + (["--cinit=" + cinit] if cinit else []) + [module + ".tla"],
                            cwd=d, capture_output=True, text=True, timeout=timeout)
     except subprocess.TimeoutExpired:
         raise Infra("Apalache timed out on %s/%s" % (module, inv))
